@@ -86,6 +86,10 @@ def build(rng, kind, i):
         hs = [rng.choice([b"X-Empty:", b"X-Empty: ", b"X-Empty:\t \t", b"Host:", b"Accept:   ", b"Content-Type:", b"Connection:", b"TE:",
                           b"Expect:", b"Upgrade:", b":", b": x", b"X-A:\x00"]) for _ in range(rng.choice([1, 2, 5]))]
         s = ("GET /%s HTTP/1.1\r\nHost: h\r\n" % tag).encode() + b"\r\n".join(hs) + b"\r\n\r\n" + follower
+    elif kind == "short-lines":
+        line = rng.choice([b"GET HTTP/1.1", b"POST HTTP/1.0", b"/x HTTP/1.1", b"GET  HTTP/1.1", b" HTTP/1.1", b"GET ", b" ", b"HTTP/1.1", b"GET /x",
+                           b"GET\tHTTP/1.1", b"G HTTP/0.9", b"GET HTTP/2.0", b"  ", b"GET /a b HTTP/1.1", b"GET /a  HTTP/1.1"])
+        s = line + b"\r\nHost: h\r\n\r\n" + follower
     elif kind == "te-nan":
         n = rng.choice([2, 5, 21, 44, 60])
         s = ("GET /%s HTTP/1.1\r\nTE: %s\r\n\r\n" % (tag, te_list(rng, n))).encode()
@@ -112,7 +116,7 @@ def build(rng, kind, i):
 
 
 KINDS = ["huge-cl", "huge-cl", "huge-chunk", "many-headers", "long-line", "control", "te-nan", "te-nan", "truncated", "random",
-         "head-identity", "empty-values"]
+         "head-identity", "empty-values", "short-lines"]
 RARE = ["many-505", "many-requests"]     # long pipelines: a few per run (the model's wire append is quadratic)
 
 
